@@ -6,7 +6,7 @@ BIN="$HERE/sim/target/release/h263-sim"
 FROM="${1:-100}"; TO="${2:-199}"
 "$HERE/check" build || exit 2
 OUT="$HERE/sensitivity/silence.txt"
-mkdir -p "$HERE/sensitivity"
+mkdir -p "$HERE/sensitivity" "$HERE/.scratch"
 echo "# unchanged tree ($(git -C "${VERIF_REPO:-/repo}" rev-parse --short HEAD)), verif $(git -C "$HERE" rev-parse --short HEAD), seeds $FROM..$TO, one tenth of the quick budget per seed" >"$OUT"
 bad=0
 for P in C01 C03 C04 C05 C13 C14 C15 C17; do
